@@ -410,7 +410,9 @@ DefaultPS4 == <<[k |-> "lit", s |-> "+ "]>>     \* variables.md: `The default va
 OutSink(k) == "o" \o ToString(k)
 IsOutSink(s) == Len(s) >= 2 /\ At(s, 1) = "o" /\ IsDigits(From(s, 2))
 Fds0 == [n \in 1..5 |-> IF n = 1 THEN OutSink(1) ELSE IF n = 2 THEN "err" ELSE "closed"]
-Ctx0 == [fds |-> Fds0, hasIn |-> FALSE, in |-> ""]
+\* context of a command: its descriptors 1-5, its standard input if it is modelled, and the
+\* files that are open for writing in it or in an enclosing command
+Ctx0 == [fds |-> Fds0, hasIn |-> FALSE, in |-> "", openw |-> {}]
 
 \* XCU 2.5.3: "Variables shall be initialized from the environment"; PS4: "The default value shall be "+ "."
 State0(o, P, variant, dots, env4) ==
@@ -619,9 +621,9 @@ DoRedirs(rs, S, C, acc) ==     \* acc = [tr, hd, outs (files opened for writing)
             ELSE DoRedirs(Tail(rs), e.S, [C EXCEPT !.hasIn = TRUE, !.in = e.S.files[T]], acc1))
          ELSE IF T = "/dev/null" THEN DoRedirs(Tail(rs), e.S, [C EXCEPT !.fds[r.fd] = "null"], acc1)
          \* two open file descriptions of one file (independent offsets): outside the model
-         ELSE IF T \in acc.outs \/ \E n \in 1..5 : C.fds[n] = "f:" \o T THEN [S |-> ClassW(e.S, "open", "file-opened-twice"), C |-> C, tr |-> acc.tr, hd |-> acc.hd, ok |-> FALSE]
+         ELSE IF T \in acc.outs \/ T \in C.openw THEN [S |-> ClassW(e.S, "open", "file-opened-twice"), C |-> C, tr |-> acc.tr, hd |-> acc.hd, ok |-> FALSE]
          ELSE LET S1 == [e.S EXCEPT !.files = WithKey(@, T, IF r.k = "out" THEN "" ELSE Val(@, T))]
-              IN DoRedirs(Tail(rs), S1, [C EXCEPT !.fds[r.fd] = "f:" \o T], [acc1 EXCEPT !.outs = @ \cup {T}])
+              IN DoRedirs(Tail(rs), S1, [C EXCEPT !.fds[r.fd] = "f:" \o T, !.openw = @ \cup {T}], [acc1 EXCEPT !.outs = @ \cup {T}])
     ELSE IF r.k = "dup" THEN
       (IF C.fds[r.to] = "closed" THEN [S |-> ClassW(S, "open", "dup-of-closed-fd"), C |-> C, tr |-> acc.tr, hd |-> acc.hd, ok |-> FALSE]
        ELSE DoRedirs(Tail(rs), S, [C EXCEPT !.fds[r.fd] = C.fds[r.to]],
